@@ -422,7 +422,7 @@ def modular_call(I, c, args, kw, st, node):
         for extra_fact in post.pc[npc:]:       # definitional facts (count witnesses, ghost weights) introduced by the clause
             st.pc.append(extra_fact)
         if h is False:
-            st.pc.append(z3.BoolVal(False))
+            raise ToolLimit("ensures clause %s of %s is false by construction at this call (aliasing/freshness of a result does not match its declared type)" % (eid, c.name))
         elif h is not True:
             st.pc.append(h)
     for oid, rec in post.heap.items():
